@@ -484,21 +484,22 @@ func payload(size, tag int) []byte {
 }
 
 type result struct {
-	Size    int    `json:"size"`
-	Op      string `json:"op"`
-	Mtu     int    `json:"mtu"`
-	Err     string `json:"err"`
-	Nd      int    `json:"nd"`
-	Eq      bool   `json:"eq"`
-	Other3  bool   `json:"other3"`
-	Part    bool   `json:"part"`  // some delivery is a proper part of the payload sent
-	Lostc   bool   `json:"lostc"` // accepted, not delivered (twice), control payload delivered
-	Ans     string `json:"ans,omitempty"`
-	checked int
-	pkts    int    // packets handed to the base transport during the exchange
-	Dlen    []int  `json:"dlen"`
-	Detail  string `json:"detail,omitempty"`
-	tag     int
+	Size     int    `json:"size"`
+	Op       string `json:"op"`
+	Mtu      int    `json:"mtu"`
+	Err      string `json:"err"`
+	Nd       int    `json:"nd"`
+	Eq       bool   `json:"eq"`
+	Other3   bool   `json:"other3"`
+	Part     bool   `json:"part"`  // some delivery is a proper part of the payload sent
+	Lostc    bool   `json:"lostc"` // accepted, not delivered (twice), control payload delivered
+	Ans      string `json:"ans,omitempty"`
+	NoBudget bool   `json:"nobudget"` // needed a re-measurement which the run's budget no longer allowed
+	checked  int
+	pkts     int    // packets handed to the base transport during the exchange
+	Dlen     []int  `json:"dlen"`
+	Detail   string `json:"detail,omitempty"`
+	tag      int
 }
 
 // session runs the cases of one stack and attributes every payload the receiver saw to its case
@@ -506,6 +507,13 @@ type session struct {
 	st      *stack
 	results []*result
 	byTag   map[int]*result
+	// lostRun counts the accepted in-range payloads of this stack that did not arrive; after two of them the
+	// stack evidently does not deliver and the remaining cases wait a tenth of the usual time (bounded run time
+	// on a broken tree; such cases are drift, or re-measured with full patience, in either case)
+	lostRun int
+	// ctxRun counts the operations of this stack that ended with the context deadline; after two of them the
+	// remaining operations get a tenth of the time
+	ctxRun int
 }
 
 func (se *session) attribute(d []byte, cur *result, curData []byte) {
@@ -565,7 +573,11 @@ func (se *session) oneW(size int, op string, tag int, patience int) *result {
 	se.byTag[tag] = r
 	data := payload(size, tag)
 	dst := st.b.sw.LocalAddrs()[0]
-	ctx, cf := context.WithTimeout(context.Background(), 15*time.Second)
+	opTimeout := 15 * time.Second
+	if se.ctxRun >= 2 && patience == 1 {
+		opTimeout /= 10
+	}
+	ctx, cf := context.WithTimeout(context.Background(), opTimeout)
 	var err error
 	sent0 := st.sent.Load()
 	defer func() { r.pkts = int(st.sent.Load() - sent0) }()
@@ -585,6 +597,9 @@ func (se *session) oneW(size int, op string, tag int, patience int) *result {
 	}
 	cf()
 	r.Err = errClass(err)
+	if r.Err == "ctx" {
+		se.ctxRun++
+	}
 	if err != nil && r.Err == "other" {
 		r.Detail = err.Error()
 		if len(r.Detail) > 120 {
@@ -603,6 +618,9 @@ func (se *session) oneW(size int, op string, tag int, patience int) *result {
 			wait = 6 * time.Second
 		}
 	}
+	if se.lostRun >= 2 && patience == 1 {
+		wait /= 10
+	}
 	wait *= time.Duration(patience)
 	if err == nil && size > r.Mtu {
 		wait = 300 * time.Millisecond
@@ -616,6 +634,9 @@ func (se *session) oneW(size int, op string, tag int, patience int) *result {
 			se.attribute(d, r, data)
 		case <-deadline:
 			se.drain(r, data) // both cases may have been ready: take what is there
+			if err == nil && size <= r.Mtu && r.Nd == 0 {
+				se.lostRun++
+			}
 			return r
 		}
 		if err == nil && size <= r.Mtu && r.Nd > 0 {
@@ -627,10 +648,101 @@ func (se *session) oneW(size int, op string, tag int, patience int) *result {
 	}
 }
 
-func run(sc StackCase, w *trace.Writer, sizeCap int) error {
+// limits bounds the run whatever the tree under test does: a budget for re-measurements, an early stop once
+// enough distinct kinds of violation were seen (the verdict cannot change any more), an overall deadline.
+type limits struct {
+	maxRemeasure int
+	reBudget     time.Duration
+	deadline     time.Time
+	maxKeys      int
+
+	mu      sync.Mutex
+	reCount int
+	reSpent time.Duration
+	refused int
+	keys    map[string]bool
+	stopped string // why no further stacks / cases are started ("" = running)
+}
+
+// remeasure runs f if the budget allows and accounts its wall time
+func (l *limits) remeasure(f func() error) (bool, error) {
+	l.mu.Lock()
+	if l.reCount >= l.maxRemeasure || l.reSpent >= l.reBudget || time.Now().After(l.deadline) {
+		l.refused++
+		l.mu.Unlock()
+		return false, nil
+	}
+	l.reCount++
+	l.mu.Unlock()
+	t0 := time.Now()
+	err := f()
+	l.mu.Lock()
+	l.reSpent += time.Since(t0)
+	l.mu.Unlock()
+	return true, err
+}
+
+// note records the kinds of violation a finished case shows (the same conditions as Stack!ObsViol; used only to
+// decide when to stop, the verdict is TLC's)
+func (l *limits) note(sc StackCase, r *result) {
+	var vs []string
+	switch {
+	case r.Size <= r.Mtu:
+		if r.Err == "mtu" {
+			vs = append(vs, "UndersizeRejected")
+		}
+		if r.Nd > 0 && !r.Eq {
+			vs = append(vs, "Corrupted")
+		}
+		if r.Nd > 0 && r.Part {
+			vs = append(vs, "DeliveredInPart")
+		}
+		if r.Err == "nil" && r.Nd == 0 && r.Lostc {
+			vs = append(vs, "AcceptedNotDelivered")
+		}
+	default:
+		if r.Err == "nil" {
+			vs = append(vs, "OversizeAccepted")
+		}
+		if r.Nd > 0 {
+			vs = append(vs, "OversizeDelivered")
+		}
+		if r.Err == "other" && r.Other3 {
+			vs = append(vs, "OversizeWrongError")
+		}
+	}
+	if len(vs) == 0 {
+		return
+	}
+	top := sc.Base
+	if len(sc.Layers) > 0 {
+		top = sc.Layers[0].K
+	}
+	l.mu.Lock()
+	for _, v := range vs {
+		l.keys[v+":"+top+"/"+r.Op] = true
+	}
+	if len(l.keys) >= l.maxKeys && l.stopped == "" {
+		l.stopped = fmt.Sprintf("%d distinct kinds of violation seen", len(l.keys))
+	}
+	l.mu.Unlock()
+}
+
+func (l *limits) stop() string {
+	l.mu.Lock()
+	defer l.mu.Unlock()
+	if l.stopped == "" && time.Now().After(l.deadline) {
+		l.stopped = "deadline of the replay stage reached"
+	}
+	return l.stopped
+}
+
+// run executes the cases of one stack; complete = false when it was cut short by the limits
+func run(sc StackCase, w *trace.Writer, sizeCap int, lim *limits) (complete bool, err error) {
+	complete = true
 	st, err := build(sc, sizeCap)
 	if err != nil {
-		return err
+		return false, err
 	}
 	se := &session{st: st, byTag: map[int]*result{}}
 	defer func() { se.st.close() }()
@@ -639,52 +751,72 @@ func run(sc StackCase, w *trace.Writer, sizeCap int) error {
 		ops = append(ops, "ask")
 	}
 	tag := 0
+cases:
 	for _, op := range ops {
 		for _, size := range sc.Sizes {
+			if lim.stop() != "" {
+				complete = false
+				break cases
+			}
 			tag++
 			r := se.one(size, op, tag)
 			if size > r.Mtu && r.Err == "other" {
 				// believed only if it repeats on three fresh stacks
-				r.Other3 = true
-				for k := 0; k < 3; k++ {
+				done, err := lim.remeasure(func() error {
+					r.Other3 = true
+					for k := 0; k < 3; k++ {
+						st2, err := build(sc, sizeCap)
+						if err != nil {
+							return err
+						}
+						se2 := &session{st: st2, byTag: map[int]*result{}}
+						r2 := se2.one(size, op, tag)
+						st2.close()
+						if r2.Err != "other" {
+							r.Other3 = false
+						}
+					}
+					return nil
+				})
+				if err != nil {
+					return false, err
+				}
+				r.NoBudget = !done
+			}
+			if size <= r.Mtu && r.Err == "nil" && r.Nd == 0 && r.pkts <= se.st.qlen/2 {
+				done, err := lim.remeasure(func() error {
+					// accepted, nothing arrived.  The base transports of the harness are lossless as long as the packets
+					// in flight fit the receive queue, so re-measure on a fresh stack with ten times the patience (>= 40x
+					// the healthy latency), then send a control payload: if that one arrives the layer lost (or never
+					// sent) the accepted payload.  Not judged when the payload needs more base packets than half the queue.
 					st2, err := build(sc, sizeCap)
 					if err != nil {
 						return err
 					}
+					defer st2.close()
 					se2 := &session{st: st2, byTag: map[int]*result{}}
-					r2 := se2.one(size, op, tag)
-					st2.close()
-					if r2.Err != "other" {
-						r.Other3 = false
+					r2 := se2.oneW(size, op, tag, 10)
+					if r2.Err == "nil" && r2.Nd == 0 && int(st2.sent.Load()) <= st2.qlen/2 {
+						ctl := 1
+						if size == 1 {
+							ctl = 0
+						}
+						rc := se2.oneW(ctl, op, tag+1000000, 10)
+						r.Lostc = rc.Err == "nil" && rc.Nd >= 1 && rc.Eq
+					} else if r2.Nd > 0 {
+						// it did arrive this time: keep what was seen (corruption included)
+						r.Nd, r.Eq, r.Part, r.Dlen = r2.Nd, r2.Eq, r2.Part, r2.Dlen
 					}
-				}
-			}
-			if size <= r.Mtu && r.Err == "nil" && r.Nd == 0 && r.pkts <= se.st.qlen/2 {
-				// accepted, nothing arrived.  The base transports of the harness are lossless as long as the packets
-				// in flight fit the receive queue, so re-measure on a fresh stack with ten times the patience (>= 40x
-				// the healthy latency), then send a control payload: if that one arrives the layer lost (or never
-				// sent) the accepted payload.  Not judged when the payload needs more base packets than half the queue.
-				st2, err := build(sc, sizeCap)
+					time.Sleep(5 * time.Millisecond)
+					se2.drain(nil, nil)
+					return nil
+				})
 				if err != nil {
-					return err
+					return false, err
 				}
-				se2 := &session{st: st2, byTag: map[int]*result{}}
-				r2 := se2.oneW(size, op, tag, 10)
-				if r2.Err == "nil" && r2.Nd == 0 && int(st2.sent.Load()) <= st2.qlen/2 {
-					ctl := 1
-					if size == 1 {
-						ctl = 0
-					}
-					rc := se2.oneW(ctl, op, tag+1000000, 10)
-					r.Lostc = rc.Err == "nil" && rc.Nd >= 1 && rc.Eq
-				} else if r2.Nd > 0 {
-					// it did arrive this time: keep what was seen (corruption included)
-					r.Nd, r.Eq, r.Part, r.Dlen = r2.Nd, r2.Eq, r2.Part, r2.Dlen
-				}
-				time.Sleep(5 * time.Millisecond)
-				se2.drain(nil, nil)
-				st2.close()
+				r.NoBudget = !done
 			}
+			lim.note(sc, r)
 			anomaly := (size > r.Mtu && (r.Err == "nil" || r.Nd > 0)) || (size <= r.Mtu && (r.Err != "nil" || r.Nd != 1 || !r.Eq))
 			if anomaly {
 				// late fragments of this case must not pollute the next one: fresh stack
@@ -692,7 +824,7 @@ func run(sc StackCase, w *trace.Writer, sizeCap int) error {
 				se.drain(r, payload(size, tag))
 				se.st.close()
 				if se.st, err = build(sc, sizeCap); err != nil {
-					return err
+					return false, err
 				}
 			}
 		}
@@ -703,9 +835,12 @@ func run(sc StackCase, w *trace.Writer, sizeCap int) error {
 		last := se.results[n-1]
 		se.drain(last, payload(last.Size, last.tag))
 	}
+	if len(se.results) == 0 {
+		return false, nil
+	}
 	w.Emit(map[string]any{"ev": "stack", "id": sc.ID, "base": sc.Base, "inner": sc.Inner, "layers": sc.Layers,
 		"modelmtu": sc.Mtu, "hasask": sc.HasAsk, "realask": se.st.a.ask != nil, "cases": se.results})
-	return nil
+	return complete, nil
 }
 
 func main() {
@@ -713,7 +848,13 @@ func main() {
 	out := flag.String("out", "", "trace (ndjson)")
 	sizeCap := flag.Int("cap", 300000, "largest payload size in the cases")
 	par := flag.Int("par", 8, "stacks executed concurrently")
+	maxRe := flag.Int("remeasure", 25, "at most this many cases are re-measured")
+	reBudget := flag.Int("rebudget", 90, "seconds of wall time available for re-measurements")
+	deadline := flag.Int("deadline", 360, "seconds after which no further case is started")
+	maxKeys := flag.Int("maxkeys", 12, "stop once this many distinct kinds of violation were seen")
 	flag.Parse()
+	lim := &limits{maxRemeasure: *maxRe, reBudget: time.Duration(*reBudget) * time.Second,
+		deadline: time.Now().Add(time.Duration(*deadline) * time.Second), maxKeys: *maxKeys, keys: map[string]bool{}}
 	f, err := os.Open(*in)
 	if err != nil {
 		fmt.Fprintln(os.Stderr, err)
@@ -739,14 +880,26 @@ func main() {
 	sem := make(chan struct{}, *par)
 	var mu sync.Mutex
 	var firstErr error
+	executed, partial, skipped := 0, 0, 0
 	for _, c := range cases {
+		if lim.stop() != "" {
+			skipped++
+			continue
+		}
 		wg.Add(1)
 		sem <- struct{}{}
 		go func(c StackCase) {
 			defer wg.Done()
 			defer func() { <-sem }()
 			t0 := time.Now()
-			err := run(c, w, *sizeCap)
+			complete, err := run(c, w, *sizeCap, lim)
+			mu.Lock()
+			if complete {
+				executed++
+			} else {
+				partial++
+			}
+			mu.Unlock()
 			if d := time.Since(t0); d > 3*time.Second {
 				fmt.Fprintf(os.Stderr, "slow stack %d (%v): base=%s inner=%d layers=%v\n", c.ID, d.Round(time.Millisecond), c.Base, c.Inner, c.Layers)
 			}
@@ -768,5 +921,10 @@ func main() {
 		fmt.Fprintln(os.Stderr, firstErr)
 		os.Exit(3)
 	}
-	fmt.Printf("executed %d stacks\n", len(cases))
+	lim.mu.Lock()
+	sum, _ := json.Marshal(map[string]any{"stacks": len(cases), "executed": executed, "cut_short": partial, "skipped": skipped,
+		"stopped": lim.stopped, "remeasured": lim.reCount, "remeasure_s": int(lim.reSpent.Seconds()), "not_remeasured_budget": lim.refused,
+		"violation_kinds_seen": len(lim.keys)})
+	lim.mu.Unlock()
+	fmt.Printf("SUMMARY %s\n", sum)
 }
